@@ -415,6 +415,8 @@ def c20(tier, seed):
         # a DAG some of whose nodes are DAG OBJECTS (xn(inner_dag)) nested in an outer DAG returns what its direct call returns
         + [dict(kind="env", pid="C20", scenarios=["reentrant"], n_cases=(60 if tier == "quick" else 500),
                 only=["dag_with_a_dag_object_as_node_function_wrong_when_*"], **_seeds(seed + 9, k)) for k in range(2 if tier == "quick" else 6)]
+        # an inner DAG that is a chain of more than a thousand nodes (longer than the recursion limit), nested: same value as inlined
+        + [dict(kind="scale", pid="C20", n_cases=(2 if tier == "quick" else 6), kinds=["nested_chain"], **_seeds(seed + 13, k)) for k in range(1 if tier == "quick" else 3)]
         # a nested call inside a describing function is inlined also while OTHER threads are building DAGs at the same time
         + [dict(kind="conc16", pid="C20", n_cases=(48 if tier == "quick" else 320), lockset=False,
                 only=["overlapped_build_raised", "concurrent_build_raised", "dag_built_during_overlap_differs_from_dag_built_alone",
